@@ -238,6 +238,16 @@ def check(ix, rep):
             _step.check_step(ix, rep, m_)
         if m_.kind == 'dense-offline':
             _pure.pure_handlers(ix, rep, m_)
+    # the laws are claimed for the pastified online monitors too: pastify() must consume exactly the look-ahead the horizon counts
+    # (a horizon that lets prev/s_prev give back a sampling period delays one side of `p since q = q or (p and s_prev(p since q))`)
+    from sa.rules import pastify as _pf18
+    _pc = ix.find_class('rtamt.pastifier.stl.pastifier', 'StlPastifier')
+    _hc = ix.find_class('rtamt.pastifier.stl.horizon', 'StlHorizon')
+    if _pc is None or _hc is None:
+        raise AnalysisError('pastifier / horizon class vanished')
+    _nh, _ = _pf18.check_horizon(ix, rep, _hc, _pc)
+    _nd, _ = _pf18.check_delay(ix, rep, _pc)
+    rep.floor('horizon and pastifier handlers', _nh + _nd, 60)
     explanation = (
         'Duality on the semantic summaries. For the pairs once/historically and eventually/always in all four monitors the operator summary of '
         'the second partner (scan direction, initial state, step; window of offsets with its fill values) must equal the dual image -- min<->max, '
